@@ -759,12 +759,13 @@ Notes:
 
     def Finalize(self):
         """cleanup upon exiting the main optimization loop"""
-        if self._energy_history is not None and self._live:
+        unlogged = self._energy_history is not None and self._live
+        self._live = False
+        if unlogged:
             self.energy_history = None # resync with 'best' energy
             self._stepmon(self.bestSolution, self.bestEnergy, self.id)
             # if savefrequency matches, then save state
             self._AbstractSolver__save_state()
-        self._live = False
         return
 
     def _process_inputs(self, kwds):
